@@ -669,6 +669,15 @@ fn ieee802154_seeds(cfg: Cfg, l: &Learned) -> Vec<Seed> {
         a.extend_from_slice(&nhc_udp(0, 4000, P_UDP, Some(be16(&small[46..]))));
         a.extend_from_slice(b"tiny");
         v.push(plain("frag/udp-whole-in-frag1", mac154(&mac, &a), true));
+        // the most compressed UDP form (4-bit ports, checksum elided) as a whole datagram in FRAG1
+        // (source port 0xf0b0: smoltcp's 4-bit destination port accessor only yields 0xf0bX when
+        // the source nibble is 0 - the port-nibble defect belongs to C06/C20)
+        let tiny = ipv6(p6, i6, 17, 64, &udp(p6, i6, 0xf0b0, P_UDP_NHC, b"hi"));
+        let mut a = frag1(tiny.len() as u16, 0x0505);
+        a.extend_from_slice(&iphc(&inline64, p6, i6, None, 64));
+        a.extend_from_slice(&nhc_udp(3, 0xf0b0, P_UDP_NHC, None));
+        a.extend_from_slice(b"hi");
+        v.push(plain("frag/udp-4bit-elided-whole-in-frag1", mac154(&mac, &a), true));
         let mut b = frag1(big.len() as u16, 0x0404);
         b.extend_from_slice(&iphc(&full, p6, i6, Some(6), 64));
         v.push(plain("frag/frag1-header-only", mac154(&mac, &b), true));
